@@ -25,6 +25,9 @@ type PropConfig struct {
 	Replay  string   `json:"replay"`        // argument-less replay template run for a failed obligation whose contract names none
 }
 
+// currentTier: quick or thorough (sweeps that have a deeper setting read it).
+var currentTier = "quick"
+
 // propReplay: property id -> default replay template.
 var propReplay = map[string]string{}
 
@@ -160,6 +163,7 @@ func cmdCheck(args []string) int {
 		fmt.Fprintln(os.Stderr, "govc:", err)
 		return 2
 	}
+	currentTier = *tier
 	cfg := RunConfig{Prop: *prop, Tier: *tier, TimeoutS: 20, Workers: 6, Verbose: *verbose, DumpObl: *dumpObl}
 	cfg.Known = loadKnownFindings(filepath.Join(*verif, "known_findings.json"))
 	if *tier == "thorough" {
